@@ -16,7 +16,7 @@ import random
 import bharness
 from generate import (FIELD_NAMES, INT_REPRS, ODD_FIELD_NAMES, ODD_VARIANT_NAMES, SKIPPABLE, STD_TRAITS, VARIANT_NAMES,
                       ZTRAITS, chance, gen_discriminants, pick)
-from items import Attr, Field, Gen, I, Ident, Item, MList, MNameValue, MPathM, P, Param, Variant, metas_body, traits_body
+from items import respell, Attr, Field, Gen, I, Ident, Item, MList, MNameValue, MPathM, P, Param, Variant, metas_body, traits_body
 
 SUPER = {'Ord': ['Eq', 'PartialOrd', 'PartialEq'], 'PartialOrd': ['PartialEq'], 'Eq': ['PartialEq'], 'Copy': ['Clone']}
 
@@ -247,7 +247,7 @@ def gen(rng, zero=False, focus=None, negative=False):
     it0.vis = pick(rng, ['', 'pub '])
     if negative and not getattr(it0, 'expect_error', None):
         return None
-    return it0
+    return respell(rng, it0)
 
 
 def groups_of(bodies, key):
